@@ -202,6 +202,11 @@ def main(pid, tier="quick", seed=0, jobs=None, only=None, write_baseline=False):
         elif ob["id"] in base_ids or not base_ids:
             lines.append(f"VIOLATION property={pid} replay={path} no-failing-input-found")
             kind = "baseline-obligation-failed"
+        elif any(("/" + ob["sid"] + "/") in b and b not in obligations for b in base_ids):
+            # the failing obligation itself is new (e.g. `returns-normally`, only emitted when the call raises), but it
+            # displaced obligations of the same structure that were discharged on the unchanged tree
+            lines.append(f"VIOLATION property={pid} replay={path} no-failing-input-found")
+            kind = "baseline-obligations-displaced"
         else:
             unknown.append(ob)
             kind = "new-obligation-undecided"
